@@ -55,8 +55,10 @@ Subset(s, keys) ==      \* in the REQUESTED order; repeating a dimension would b
 
 AppendDim(s, d)  == IF HasLetter(s, d) THEN Error ELSE Append(s, d)
 PrependDim(s, d) == IF HasLetter(s, d) THEN Error ELSE <<d>> \o s
-InsertDim(s, i, d) ==      \* Python list.insert semantics for 0 <= i <= Len(s)
-    IF HasLetter(s, d) THEN Error ELSE SubSeq(s, 1, i) \o <<d>> \o SubSeq(s, i + 1, Len(s))
+InsertPos(s, i) == IF i < 0 THEN (IF Len(s) + i < 0 THEN 0 ELSE Len(s) + i) ELSE (IF i > Len(s) THEN Len(s) ELSE i)
+InsertDim(s, i, d) ==      \* Python list.insert semantics: negative indices count from the end, out-of-range ones are clamped
+    IF HasLetter(s, d) THEN Error
+    ELSE LET k == InsertPos(s, i) IN SubSeq(s, 1, k) \o <<d>> \o SubSeq(s, k + 1, Len(s))
 Expand(s, ds) == IF (\E i \in DOMAIN ds : HasLetter(s, ds[i])) \/ ~Unique(ds) THEN Error ELSE s \o ds
 DropDim(s, k) == IF KeyIndex(s, k) = 0 THEN Error
                  ELSE SubSeq(s, 1, KeyIndex(s, k) - 1) \o SubSeq(s, KeyIndex(s, k) + 1, Len(s))
